@@ -62,10 +62,56 @@ class Real:
         self.default_mtu = 1500
 
     # ------------------------------------------------------------------ endpoints
+    def server_ctxt(self, which="good"):
+        """real ServerContext objects (one per root key identity), created once per Real instance"""
+        from mpgameserver.context import ServerContext
+        from mpgameserver.handler import EventHandler
+        if not hasattr(self, "_ctxts"):
+            self._ctxts = {}
+        if which not in self._ctxts:
+            real = self
+
+            class H(EventHandler):
+                def connect(self, client):
+                    if hasattr(client, "_v_events"):
+                        client._v_events.append("promoted")
+            self._ctxts[which] = ServerContext(H())
+        return self._ctxts[which]
+
     def new_endpoint(self, name, role):
         C = self.C
-        conn = C.ConnectionBase(role == "server", (name, 1))
+        if role == "csc":
+            conn = C.ClientServerConnection((name, 1))
+        elif role.startswith("scc"):
+            ctxt = self.server_ctxt("other" if role == "scc2" else "good")
+            conn = C.ServerClientConnection(ctxt, (name, 1))
+            ctxt.temp_connections[conn.addr] = conn
+            ctxt.connections.pop(conn.addr, None)
+        else:
+            conn = C.ConnectionBase(role == "server", (name, 1))
         self.instrument(conn)
+        conn._v_role = "csc" if role == "csc" else ("scc" if role.startswith("scc") else "base")
+        if conn._v_role != "base":
+            # tag exceptions that escape the hello handlers (compared as one class, see Driver/Conn.lean)
+            for nm in ("_recvClientHello", "_recvServerHello", "_recvChallengeResponse"):
+                orig = getattr(conn, nm)
+
+                def wrapped(data, _o=orig, _c=conn, _n=nm):
+                    _c._v_hs_called = _n
+                    _c._v_hs_exc = None
+                    if _n == "_recvChallengeResponse":
+                        other = _c.ctxt.temp_connections.get(_c.addr)
+                        _c._v_temptok = other.token if other is not None else None
+                        try:
+                            _c._v_chal_token = int(C.Serializable.loadb(data).token)
+                        except Exception:
+                            _c._v_chal_token = None
+                    try:
+                        return _o(data)
+                    except Exception as e:
+                        _c._v_hs_exc = e
+                        raise
+                setattr(conn, nm, wrapped)
         return conn
 
     def instrument(self, conn):
@@ -150,7 +196,7 @@ class Real:
         fo = lst("%d/%d/%s" % (int(f.frag_id), rv(f.retry), "".join("n" if a is None else ("t" if a else "f") for a in f.acks))
                  for f in conn._v_frag)
         s = conn.stats
-        return ("st=%d key=%d ss=%d sm=%d sf=%d bp=%d:%d bm=%d:%d pa=%s pc=%s pr=%s prm=%s out=%s rf=%s pf=%s ro=%s fo=%s "
+        base = ("st=%d key=%d ss=%d sm=%d sf=%d bp=%d:%d bm=%d:%d pa=%s pc=%s pr=%s prm=%s out=%s rf=%s pf=%s ro=%s fo=%s "
                 "ctr=%d,%d,%d,%d,%d,%d last=%d,%d,%d inc=%d") % (
             conn.status.value, 1 if conn.session_key_bytes else 0, int(conn.seq_sending), int(conn.seq_message),
             int(conn.seq_fragment), int(conn.bitfield_pkt.current_seqnum), conn.bitfield_pkt.bits,
@@ -158,6 +204,8 @@ class Real:
             s.assembled, s.sent, s.dropped, s.received, s.acked, s.timeouts,
             self.ticks(conn.last_recv_time), self.ticks(conn.last_send_time), self.ticks(conn.last_send_keep_alive_time),
             len(conn.incoming_messages))
+        return base + " tok=%d hs=%d" % (getattr(conn, "token", 0) or 0,
+                                         self.ticks(getattr(conn, "time_client_hello_sent", 0) or 0))
 
     # ------------------------------------------------------------------ datagram operands
     def apply_mut(self, d, m):
@@ -177,9 +225,26 @@ class Real:
             return d[:i] + bytes([d[i] ^ (1 << (k % 8))]) + d[i + 1:]
         raise ValueError(m)
 
-    def datagram_of(self, eps, kvs, muts, key_of):
+    def craft(self, spec, to_server):
+        """d=!<ty>,<seq>,<ack>,<bits>,<ct>,<count>:<plaintext hex>:<key hex|none> - a datagram built from scratch by someone who
+        holds `key` (or nobody's key: CRC form); both drivers build it from the same fields"""
+        C = self.C
+        f, pt, key = spec[1:].split(":")
+        ty, seq, ack, bits, ct, count = [int(x) for x in f.split(",")]
+        pt = b"" if pt == "-" else bytes.fromhex(pt)
+        hdr = C.PacketHeader.create(not to_server, ct, C.PacketType(ty), C.SeqNum(seq), C.SeqNum(ack), bits)
+        hdr.length, hdr.count = len(pt), count
+        hb = hdr.to_bytes()
+        if key == "none":
+            d = hb + pt
+            return d + struct.pack(">L", self.crypto.crc32(d))
+        return hb + self.crypto.encrypt_gcm(bytes.fromhex(key), hb[:12], hb, pt)
+
+    def datagram_of(self, eps, kvs, muts, key_of, to_server=True):
         spec = kvs["d"]
-        if spec.startswith("@"):
+        if spec.startswith("!"):
+            d = self.craft(spec, to_server)
+        elif spec.startswith("@"):
             e, k = spec[1:].split(":")
             d = eps[e]["emits"][int(k)]
             if "rekey" in kvs:
@@ -227,6 +292,7 @@ class CaseRun:
         log = self.log
         eps = self.eps
         out = []
+        self.last_line = line
         w = line.split()
         if not w:
             return out
@@ -257,6 +323,16 @@ class CaseRun:
                 conn.seq_message = C.SeqNum(int(kvs["sm"]))
             if "sf" in kvs:
                 conn.seq_fragment = C.SeqNum(int(kvs["sf"]))
+            if "tt" in kvs:
+                conn.temp_connection_timeout = int(kvs["tt"]) / TICK
+            if "ccb" in kvs:
+                if kvs["ccb"] == "1":
+                    conn.connection_callback = lambda ok, _c=conn: _c._v_events.append("ccb:%d" % (1 if ok else 0))
+                else:
+                    conn.connection_callback = None
+            if "pinned" in kvs:
+                which = {"01": "good", "02": "other"}.get(kvs["pinned"])
+                conn.setServerPublicKey(None if which is None else real.server_ctxt(which).server_root_key.getPublicKey())
         elif op == "send":
             conn = eps[w[1]]["conn"]
             n, seed, retry = int(kvs["len"]), int(kvs["seed"]), int(kvs["retry"])
@@ -328,7 +404,7 @@ class CaseRun:
             conn = ep["conn"]
             real.now = int(kvs["t"])
             try:
-                d = real.datagram_of(eps, kvs, muts, self.key_of)
+                d = real.datagram_of(eps, kvs, muts, self.key_of, conn.isServer)
                 identity = False
                 if kvs["d"].startswith("@") and (muts or "rekey" in kvs):
                     e0, k0 = kvs["d"][1:].split(":")
@@ -346,11 +422,42 @@ class CaseRun:
             del conn._v_events[:]
             before = real.dump(conn) if (log is not None and self.snapshots) else None
             dropped0 = conn.stats.dropped
+            role = getattr(conn, "_v_role", "base")
+            conn._v_hs_called = None
+            conn._v_hs_exc = None
+            nout0 = len(conn.outgoing_messages)
+            key_before = conn.session_key_bytes
+            status_before = conn.status.value
             try:
                 r = conn._recv_datagram(hdr, d)
                 ret = "T" if r else "F"
             except Exception as e:
                 ret = "err:" + type(e).__name__
+                if role != "base" and conn._v_hs_exc is e:
+                    ret = "err:InvalidSignature" if type(e).__name__ == "InvalidSignature" else "err:hs"
+            if role != "base":
+                # oracle values for the model, observed from this very execution (keys, signatures and tokens are random)
+                called, exc = conn._v_hs_called, conn._v_hs_exc
+                orc = ""
+                if called == "_recvServerHello":
+                    if exc is None:
+                        orc = " orc=sh:ok:%s:%d:%s" % (conn.session_key_bytes.hex(), conn.token, conn.outgoing_messages[-1].payload.hex())
+                    elif type(exc).__name__ == "InvalidSignature":
+                        orc = " orc=sh:badsig"
+                    else:
+                        orc = " orc=sh:err"
+                elif called == "_recvClientHello":
+                    if exc is not None:
+                        orc = " orc=ch:err"
+                    elif len(conn.outgoing_messages) > nout0 and conn.outgoing_messages[-1].type == C.PacketType.SERVER_HELLO:
+                        orc = " orc=ch:ok:%s:%s tok=%d" % (conn.session_key_bytes.hex(), conn.outgoing_messages[-1].payload.hex(), conn.token)
+                    else:
+                        orc = " orc=ch:ver:2"
+                elif called == "_recvChallengeResponse":
+                    tt = getattr(conn, "_v_temptok", None)
+                    ct = getattr(conn, "_v_chal_token", None)
+                    orc = " orc=cr:%s temptok=%s" % ("err" if ct is None else str(ct), "none" if tt is None else str(tt))
+                self.last_line = line.split(" orc=")[0] + orc
             evs = list(conn._v_events)
             if conn.stats.dropped != dropped0:
                 evs = ["drop"] * (conn.stats.dropped - dropped0) + evs
@@ -358,7 +465,31 @@ class CaseRun:
             if log is not None:
                 log.append({"op": "recv", "e": w[1], "t": real.now, "ret": ret, "ev": evs, "spec": kvs["d"], "muts": muts,
                             "rekey": kvs.get("rekey"), "identity": identity, "before": before, "after": real.dump(conn) if self.snapshots else None,
-                            "hdrseq": int(hdr.seq), "keyed": bool(conn.session_key_bytes)})
+                            "hdrseq": int(hdr.seq), "keyed": bool(key_before), "hs": conn._v_hs_called,
+                            "hsexc": type(conn._v_hs_exc).__name__ if conn._v_hs_exc is not None else None,
+                            "key_before": key_before.hex() if key_before else None,
+                            "key_after": conn.session_key_bytes.hex() if conn.session_key_bytes else None,
+                            "status_before": status_before, "status_after": conn.status.value,
+                            "token": getattr(conn, "token", 0), "chal_token": getattr(conn, "_v_chal_token", None),
+                            "datagram": d.hex() if len(d) < 4000 else None})
+        elif op == "hello":
+            conn = eps[w[1]]["conn"]
+            real.now = int(kvs["t"])
+            conn._sendClientHello()
+            hello = conn.outgoing_messages[-1].payload
+            self.last_line = "hello %s t=%d d=%s" % (w[1], real.now, hello.hex())
+            out.append("ok")
+            if log is not None:
+                log.append({"op": "hello", "e": w[1], "t": real.now})
+        elif op == "cupd":
+            conn = eps[w[1]]["conn"]
+            real.now = int(kvs["t"])
+            del conn._v_events[:]
+            conn.update()
+            evs = list(conn._v_events)
+            out.append("st=%d ev=%s" % (conn.status.value, ",".join(evs) if evs else "-"))
+            if log is not None:
+                log.append({"op": "cupd", "e": w[1], "t": real.now, "ev": evs, "status": conn.status.value})
         elif op == "tmo":
             conn = eps[w[1]]["conn"]
             real.now = int(kvs["t"])
@@ -591,7 +722,7 @@ def add_set_extras():
 
 # ======================================================================= projections and shared runner
 
-ANSWERING = ("send", "disc", "build", "recv", "tmo", "take", "dump")
+ANSWERING = ("send", "disc", "build", "recv", "tmo", "take", "dump", "hello", "cupd", "supd")
 
 
 def answering_ops(case):
@@ -612,6 +743,10 @@ def make_post(fn):
             res.append("#outputs=%d ops=%d" % (len(outs), len(ops)))
         return res
     return post
+
+
+def make_post_hs(fn):
+    return make_post(fn)
 
 
 def ev_filter(line, kinds):
@@ -639,3 +774,169 @@ def run_cases(ctx, real, cases, post, layer, rule, nontrivial=None, snapshots=Tr
         return out
     bad = ctx.correspondence(layer, "Conn", cases, impl_fn, nontrivial, rule, post=post)
     return logs, bad
+
+
+# ======================================================================= handshake scenarios (recorded runs)
+
+def run_recorded(ctx, cases, outputs, post, layer, rule, nontrivial=None):
+    """correspondence for cases whose real execution cannot be repeated bit for bit (fresh EC keys, random signatures):
+    the outputs recorded while the case was generated are the implementation side"""
+    def impl_fn(case):
+        return outputs[core.case_id(case)]
+    return ctx.correspondence(layer, "Conn", cases, impl_fn, nontrivial, rule, minimise=False, post=post)
+
+
+def resigned_hello(real, genuine_payload_msg, attacker_root):
+    """a server hello an active attacker can produce: own ephemeral key, genuine salt/token, signed with the attacker's root key"""
+    C = real.C
+    m = C.HandshakeServerHelloMessage()
+    m.server_pubkey = C.EllipticCurvePrivateKey.new().getPublicKey()
+    m.salt = genuine_payload_msg.salt if genuine_payload_msg is not None else b"\x00" * 16
+    m.token = genuine_payload_msg.token if genuine_payload_msg is not None else 0x40000001
+    return m.dumpb(server_root_key=attacker_root)
+
+
+def gen_handshake(real, rng, cid, script=None):
+    """one or two client/server connection pairs running the three-way handshake under an attack script; executed on the
+    real classes while it is generated; returns (case lines with oracle values, outputs, log)"""
+    C = real.C
+    lines = ["case %s" % cid]
+    outs = []
+    log = []
+    run = CaseRun(real, log)
+    t = BASE_T + rng.randint(0, 3000)
+    script = script or rng.choice(["honest", "honest", "flip-client-hello", "flip-server-hello", "foreign-root", "resigned", "other-session",
+                                    "wrong-token", "other-key-challenge", "dup-reorder", "tofu", "pinned-other", "trunc-ext", "early-app",
+                                    "no-answer"])
+
+    def emit(line):
+        o = run.exec(line)
+        lines.append(run.last_line)
+        outs.extend(o)
+        return o
+
+    def built(e):
+        nonlocal t
+        t += 20
+        o = emit("build %s t=%d" % (e, t))
+        return len(run.eps[e]["emits"]) - 1 if (o and o[0].startswith("pkt")) else None
+
+    def deliver(dst, src, k, extra=""):
+        nonlocal t
+        t += 3
+        return emit("recv %s t=%d d=@%s:%d%s" % (dst, t, src, k, (" " + extra) if extra else ""))
+
+    try:
+        emit("now %d" % t)
+        emit("mtu %d" % rng.choice([1500, 1500, 512]))
+        emit("new c csc")
+        emit("new s scc")
+        pinned = {"tofu": "none", "pinned-other": "02"}.get(script, "01")
+        ccb = rng.choice(["0", "1"])
+        emit("set c pinned=%s ccb=%s si=16 ka=96 ot=1024 tt=2048" % (pinned, ccb))
+        emit("set s si=16 ka=96 ot=1024")
+        if script in ("other-session", "foreign-root"):
+            emit("new c2 csc")
+            emit("new s2 %s" % ("scc2" if script == "foreign-root" else "scc"))
+            emit("set c2 pinned=none ccb=0 si=16 ka=96 ot=1024 tt=2048")
+            emit("set s2 si=16 ka=96 ot=1024")
+        t += 5
+        emit("hello c t=%d" % t)
+        kc = built("c")
+        dlen = len(run.eps["c"]["emits"][kc])
+        if script == "no-answer":
+            for _ in range(rng.randint(20, 40)):
+                t += rng.choice([100, 200, 300])
+                emit("cupd c t=%d" % t)
+                built("c")
+            emit("dump c")
+            lines.append("end")
+            return lines, outs, log
+        # ---- client hello -> server
+        if script == "flip-client-hello":
+            deliver("s", "c", kc, "mut=flip:%d" % rng.randrange(dlen * 8))
+        elif script == "trunc-ext":
+            deliver("s", "c", kc, rng.choice(["mut=trunc:%d" % rng.choice([dlen - 1, dlen - 5, 60, 24]), "mut=ext:00", "mut=ext:0102030405060708"]))
+        if script == "early-app":
+            # application data and other types before any key exists: forged plaintext towards both ends
+            for dst, ty in (("s", 6), ("c", 6), ("s", 3), ("c", 5), ("s", 4)):
+                t += 1
+                emit("recv %s t=%d d=!%d,%d,0,0,%d,1:%s:none" % (dst, t, ty, rng.randint(1, 9), t // 1024, (b"\x00\x07" + b"evil").hex()))
+        deliver("s", "c", kc)
+        if script == "dup-reorder":
+            deliver("s", "c", kc)
+        ks = built("s")
+        if script in ("other-session", "foreign-root"):
+            t += 5
+            emit("hello c2 t=%d" % t)
+            kc2 = built("c2")
+            deliver("s2", "c2", kc2)
+            ks2 = built("s2")
+        # ---- server hello -> client
+        if ks is not None:
+            slen = len(run.eps["s"]["emits"][ks])
+            if script == "flip-server-hello":
+                # root key field (bytes 24..), signed payload, signature: flip anywhere behind the 20 header bytes + CRC fix is
+                # impossible for a plain flip (CRC fails) - so rebuild the CRC as an attacker would
+                raw = run.eps["s"]["emits"][ks]
+                pos = rng.randrange(20, slen - 4)
+                body = bytearray(raw[:-4])
+                body[pos] ^= 1 << rng.randrange(8)
+                forged = bytes(body) + struct.pack(">L", real.crypto.crc32(bytes(body)))
+                t += 3
+                emit("recv c t=%d d=%s" % (t, forged.hex()))
+            elif script == "resigned":
+                raw = run.eps["s"]["emits"][ks]
+                try:
+                    gen = C.Serializable.loadb(raw[22:-4], server_public_key=None)
+                except Exception:
+                    gen = None
+                payload = resigned_hello(real, gen, real.server_ctxt("other").server_root_key)
+                t += 3
+                emit("recv c t=%d d=!2,1,0,0,%d,1:%s:none" % (t, t // 1024, (b"\x00\x01" + payload).hex()))
+            elif script in ("other-session", "foreign-root") and ks2 is not None:
+                deliver("c", "s2", ks2)
+            elif script == "trunc-ext":
+                deliver("c", "s", ks, rng.choice(["mut=trunc:%d" % (slen - 1), "mut=ext:00"]))
+            deliver("c", "s", ks)
+            if script == "dup-reorder":
+                deliver("c", "s", ks)
+        t += 5
+        emit("cupd c t=%d" % t)
+        kch = built("c")
+        # ---- challenge -> server
+        ckey = run.eps["c"]["conn"].session_key_bytes
+        if kch is not None and ckey:
+            tok = run.eps["c"]["conn"].token
+            chal = C.HandshakeClientChallengeResponseMessage()
+            if script == "wrong-token":
+                chal.token = (tok + 1) & 0x7fffffff
+                t += 3
+                emit("recv s t=%d d=!3,9,0,0,%d,1:%s:%s" % (t, t // 1024, (b"\x00\x09" + chal.dumpb()).hex(), ckey.hex()))
+            elif script == "other-key-challenge":
+                deliver("s", "c", kch, "rekey=%s" % KEY2.hex())
+            if script == "dup-reorder" and rng.random() < 0.5:
+                pass
+            deliver("s", "c", kch)
+            if script == "dup-reorder":
+                deliver("s", "c", kch)
+                chal.token = tok
+                t += 3
+                # a second, freshly built challenge with the right token after promotion
+                emit("recv s t=%d d=!3,12,0,0,%d,1:%s:%s" % (t, t // 1024, (b"\x00\x0c" + chal.dumpb()).hex(), ckey.hex()))
+        # ---- afterwards: traffic both ways
+        for e in ("c", "s"):
+            emit("send %s len=%d seed=%d retry=0 cb=-" % (e, rng.choice([5, 40]), rng.randint(1, 9999)))
+        for _ in range(3):
+            for e, p in (("c", "s"), ("s", "c")):
+                k = built(e)
+                if k is not None:
+                    deliver(p, e, k)
+            t += 100
+            emit("cupd c t=%d" % t)
+        emit("dump c")
+        emit("dump s")
+    finally:
+        run.close()
+    lines.append("end")
+    return lines, outs, log
